@@ -43,7 +43,7 @@ ALL = {
  'C29': (E4, T_E4, 'All histories of <=2x2 / 3x3 commands over a block alphabet (multi-line, unicode, 70 KiB, 200 KiB); the file is truncated at EVERY byte of the last write (sampled offsets for the long entries), further sessions append, reload must give every acknowledged entry except possibly the torn one.', 'crash model = torn single append (prefix); murex never fsyncs so power-loss models are out of scope'),
  'C30': (E3, T_E3, 'BFS over write/read/trim/clear histories on namespaces x keys x values x TTL classes of the real cache (memory + sqlite); every read compared with the model.', 'real clock: TTLs kept >=30 min from now, expiry during a history is outside the bound'),
  'C31': (E2, T_E2, 'Functions with fixed stdout/stderr/exit x the product of assertion choices in the test plan; verdict of test unit compared with an oracle evaluating each assertion.', '9 assertion dimensions as listed in evidence'),
- 'C32': (E1, 'stateless DFS over schedules of the real interpreter built with the Go race detector, scheduler hand-offs invisible to the detector; the detector judges every explored schedule', 'Listed concurrent programs run under the controlled scheduler in a -race build whose scheduler shims are uninstrumented (futex gates), so each explored schedule is judged by the race detector with exactly the program\'s own synchronisation; a canary race must be reported on every run.', 'only accesses executed by the explored programs/schedules are seen; detector history is finite; bound 1 quick / 2 thorough'),
+ 'C32': (E1, 'stateless DFS over schedules of the real interpreter built with the Go race detector, scheduler hand-offs invisible to the detector; the detector judges every explored schedule', 'Listed concurrent programs, and every unordered pair of operations of every shared interpreter table (variables, parameters, config, aliases, functions, FIDs, methods, unit tests, named pipes, streams) plus a list of functions that must be stateless, run under the controlled scheduler in a -race build whose scheduler shims are uninstrumented (futex gates), so each explored schedule is judged by the race detector with exactly the program\'s own synchronisation; a canary race must be reported on every run.', 'only accesses executed by the explored programs/pairs/schedules are seen; detector history is finite; writes inside std packages the runtime depends on (internal/strconv) are not instrumented; bound 1 quick / 2 thorough'),
  'C33': (E2, T_E2, 'Every combination of <err>/<null> x <!out>/<!null> on commands writing chosen payloads to stdout/stderr, as last command and as pipeline stage, and |> / >> over previous file contents; bytes must arrive exactly where the statement routes them.', 'payload alphabet of 4 byte strings'),
  'C34': (E2, T_E2, 'All token sequences of length <=4/5 over safe/unsafe/unknown commands, pipes, blocks, sub-shells, assignments and redirections; whenever the tokenizer says safe, the real parser\'s tree of the text autocomplete would execute must contain only safe commands.', 'one-directional oracle (tokenizer may be conservative)'),
  'C35': (E2, T_E2, 'Every byte string of length <=1/2 over all 256 byte values plus longer strings over a 16-byte core through escape/!escape, eschtml/!eschtml, escurl/!escurl as methods; output bytes must equal input bytes.', 'bytes injected through stdin'),
